@@ -19,7 +19,7 @@ EXPLANATION = (
 
 def run(tier):
     cr = CheckRun("C14", tier, "other", EXPLANATION, "DESIGN §4 C14")
-    cr.contracts(["contracts.c14", "contracts.c14b", "contracts.c14c", "contracts.c05b"])
+    cr.contracts(["contracts.c14", "contracts.c14b", "contracts.c14c", "contracts.c14d", "contracts.c05b"])
     from pyvc import guards
     stages = ["parse", "visit", "lower_program", "plan_layout", "emit_from_plan"]
     for q in ("dsl_compiler/cli.py::compile_dsl_source", "compile.py::compile_dsl_file"):
